@@ -257,7 +257,11 @@ func combosFor(t *rapid.T, label string, reg *pubdata.RegimeInfo, include string
 			cb.Ext["xx-verif-group"] = rapid.SampledFrom([]string{"A", "B"}).Draw(t, label+"_extv")
 		}
 		if cb.Rate == "" && len(others) > 0 && rapid.IntRange(0, 14).Draw(t, label+"_cty") < pCty {
-			if cat.Code == "VAT" && rapid.IntRange(0, 2).Draw(t, label+"_ctyvat") > 0 {
+			if rapid.IntRange(0, 4).Draw(t, label+"_ctynone") == 0 {
+				// a country for which no regime is defined: the category keeps the
+				// meaning (ordinary or retained) the document's own regime gives it
+				cb.Country = rapid.SampledFrom([]string{"AD", "JP", "AU"}).Draw(t, label+"_ctynonev")
+			} else if cat.Code == "VAT" && rapid.IntRange(0, 2).Draw(t, label+"_ctyvat") > 0 {
 				cb.Country = rapid.SampledFrom(others).Draw(t, label+"_ctyv")
 			} else {
 				// any category of any other regime, ordinary or retained
